@@ -187,10 +187,30 @@ def cti_roles(prog, fn):
         for n in core.walk_fn(fn):
             if n.get("k") == "Assign" and core.strip(n["l"]).get("lid") == k:
                 srcs.append(n["r"])
+        # locals bound to the `canonical` field of looked-up descriptors by a pattern (`PropertyDescriptors { canonical, .. }`)
+        canon_lids = set()
+
+        def pats(x):
+            if isinstance(x, dict):
+                if x.get("k") == "Struct" and (x.get("def") or "").endswith("PropertyDescriptors") and isinstance(x.get("fields"), list) and x["fields"] and "p" in x["fields"][0]:
+                    for fl_ in x["fields"]:
+                        if fl_.get("f") == "canonical":
+                            q = fl_["p"]
+                            while q.get("k") in ("Ref", "Deref") and isinstance(q.get("p"), dict):
+                                q = q["p"]
+                            if q.get("k") == "Binding":
+                                canon_lids.add(q["lid"])
+                for v_ in x.values():
+                    if isinstance(v_, (dict, list)):
+                        pats(v_)
+            elif isinstance(x, list):
+                for v_ in x:
+                    pats(v_)
+        pats(fn.body)
         for e in srcs:
             lid, path = core.place_root_lid(e)
             names = [p for p in path if not p.startswith(".") and p != "?"]
-            if "canonical" in names and names[-1:] == ["name"]:
+            if ("canonical" in names or lid in canon_lids) and names[-1:] == ["name"]:
                 roles["keysrc"].add("canonical")
             elif lid in prop_lids:
                 roles["keysrc"].add("own-name")
@@ -327,52 +347,113 @@ def rule_scratch(c, prog, R="C08.scratch"):
 
 def rule_default(c, prog):
     R = "C08.default"
-    c.rule(R, "a missing property is filled from database.find_default_property(class, canonical name), else from fallback_default_value(serialized type); never from another instance")
+    c.rule(R, "a missing property is filled from database.find_default_property(<this class's descriptor>, canonical name), else from fallback_default_value(serialized type), else the column is refused; never from another instance — decided on the symbolic value of the expression stored in PropInfo.default_value (sa.sym), so `and_then / or_else / ok_or_else`, nested `match`es and early returns are the same thing")
+    from sa import sym, wire
     fn = common.find_fn(prog, r"serializer::state::SerializerState.*::collect_type_info$")
     roles = cti_roles(prog, fn)
-    fd = [n for n in core.walk_fn(fn) if n.get("k") == "MethodCall" and n["m"] == "find_default_property"]
-    # the class argument: the closure parameter of `<type info>.class_descriptor.and_then(|class| ..)`
-    cls_ok = False
-    if len(fd) == 1:
-        a0 = core.strip(fd[0]["args"][0])
-        for n in core.walk_fn(fn):
-            if n.get("k") == "MethodCall" and n["m"] in ("and_then", "map") and core.place_root_lid(n["recv"]) == (roles["ti"], ["class_descriptor"]) and n["args"]:
-                clo = core.strip(n["args"][0])
-                if clo.get("k") == "Closure" and any(x is fd[0] for x in core.walk(clo["body"])):
-                    pl = []
-                    stack = [clo.get("params")]
-                    while stack:
-                        x = stack.pop()
-                        if isinstance(x, dict):
-                            if x.get("k") == "Binding":
-                                pl.append(x["lid"])
-                            stack.extend(v for v in x.values() if isinstance(v, (dict, list)))
-                        elif isinstance(x, list):
-                            stack.extend(x)
-                    cls_ok = a0.get("lid") in pl
-    ok = len(fd) == 1 and roles["key"] is not None and core.place_root_lid(fd[0]["args"][1])[0] == roles["key"] and cls_ok
-    if ok:
+    FD = re.compile(r"ReflectionDatabase::<'a>::find_default_property$|database::ReflectionDatabase.*::find_default_property$")
+    FB = re.compile(r"::fallback_default_value$")
+    # the local stored as PropInfo.default_value, and the statement that computes it
+    dv_lid = None
+    if roles["insert"] is not None:
+        lit = core.strip(roles["insert"]["args"][1])
+        for f_ in lit.get("fields") or []:
+            if f_.get("f") == "default_value":
+                dv_lid = core.place_root_lid(f_["e"])[0]
+    st = next((st_ for st_ in core.walk_lets(fn.body) if st_["pat"].get("k") == "Binding" and st_["pat"].get("lid") == dv_lid and st_.get("init") is not None), None)
+    if dv_lid is None or st is None:
+        raise core.AnchorMissing("collect_type_info: the expression stored as PropInfo.default_value")
+    # everything the default is computed from: the statement itself and the lets (in the same block, before it) that feed it
+    feeders = []
+    wanted = {y["lid"] for y in core.walk(st["init"]) if y.get("k") == "Path" and y.get("res") == "local"}
+    for st2 in core.walk_lets(fn.body):
+        if st2 is st:
+            break
+        if st2["pat"].get("k") == "Binding" and st2["pat"].get("lid") in wanted and st2.get("init") is not None and any(y.get("k") in ("Call", "MethodCall") and (FD.search(core.callee(y) or "") or FB.search(core.callee(y) or "")) for y in core.walk(st2["init"])):
+            feeders.append(st2)
+    env = {}
+    region = {"k": "Block", "b": {"stmts": [dict(x) for x in feeders], "expr": st["init"]}}
+    for y in core.walk(region):
+        if y.get("k") == "Path" and y.get("res") == "local" and y["lid"] not in env:
+            env[y["lid"]] = ("in", "key") if y["lid"] == roles["key"] else (("in", "sty") if y["lid"] == roles["sty"] else (("in", "type_info") if y["lid"] == roles["ti"] else ("in", "l:" + str(y.get("name")))))
+    for x in feeders:
+        env.pop(x["pat"]["lid"], None)
+    inst_all = ("db-default:canonical-name", "fallback:serialized-type", "order:db-then-fallback", "class:own-descriptor")
+    try:
+        opaque = {p_ for p_ in prog.fns if FD.search(p_) or FB.search(p_)}
+        I, val, ex = wire.run_region(prog, region, env, [], depth=4, opaque=opaque)
+        pts = sym.value_points(I.events, val)
+    except (sym.Unsupported, core.AnalysisError) as e:
+        for inst in inst_all:
+            c.violation(R, f"cannot-analyse|{inst}", f"the default-value expression of collect_type_info is outside the symbolic model: {e}", core.loc(st), instance=inst)
+        return
+
+    def apps(t, rx, out):
+        if isinstance(t, tuple) and t:
+            if t[0] == "app" and isinstance(t[1], str) and rx.search(t[1]):
+                out.append(t)
+            for x in t:
+                apps(x, rx, out)
+        elif isinstance(t, list):
+            for x in t:
+                apps(x, rx, out)
+        return out
+    everything = [val] + list(I.events)
+    fds = []
+    for t in apps(everything, FD, []):
+        if t not in fds:
+            fds.append(t)
+    fbs = []
+    for t in apps(everything, FB, []):
+        if t not in fbs:
+            fbs.append(t)
+    CD = sym.fld(("in", "type_info"), "class_descriptor")
+    key_ok = len(fds) == 1 and len(fds[0][2]) == 3 and C08_contains(fds[0][2][2], ("in", "key")) and not any(isinstance(x, tuple) and x[:1] == ("in",) and x[1].startswith("l:") for x in _leaves(fds[0][2][2]))
+    cls_ok = len(fds) == 1 and len(fds[0][2]) == 3 and C08_contains(fds[0][2][1], CD)
+    if key_ok:
         c.ok(R, "db-default:canonical-name")
     else:
-        got = core.fingerprint(fd[0]["args"][1], 3) if fd else None
+        got = sym.term_str(fds[0][2][2], 4) if fds and len(fds[0][2]) == 3 else None
         c.violation(R, "db-default|key", f"find_default_property is looked up with `{got}`; database defaults are keyed by the canonical name (the key the column is filed under), so a column first met under an alias or legacy spelling would fall back to the type's neutral value and the result would depend on sibling order", fn.sp, instance="db-default:canonical-name")
-    fb = [n for n in core.walk_fn(fn) if n.get("k") == "Call" and (core.callee(n) or "").endswith("fallback_default_value")]
-    ok = len(fb) == 1 and roles["sty"] is not None and core.place_root_lid(fb[0]["args"][0])[0] == roles["sty"]
-    if ok:
+    if len(fbs) == 1 and len(fbs[0][2]) >= 1 and C08_contains(fbs[0][2][-1], ("in", "sty")):
         c.ok(R, "fallback:serialized-type")
     else:
         c.violation(R, "fallback|arg", "fallback_default_value is no longer called with the serialized type (the type the column's wire type is derived from)", fn.sp, instance="fallback:serialized-type")
-    # order: db default .or_else(fallback)
-    chain = [n["m"] for n in core.walk_fn(fn) if n.get("k") == "MethodCall" and n["m"] in ("and_then", "or_else", "ok_or_else") and any(x in fd or x in fb for x in core.walk(n))]
-    if "or_else" in chain:
+    # order: a value that comes from the fallback is produced only where the database default is known to be missing
+    ok_order = bool(fds) and bool(fbs)
+    n_fb = 0
+    for cs, v, lp in pts:
+        if v is None or not apps(v, FB, []):
+            continue
+        if apps(v, FD, []):
+            continue      # one term mentioning both: an unsplit chain; judged by the conditions below
+        n_fb += 1
+        neg = False
+        for cnd in cs:
+            if apps(cnd, FD, []) or C08_contains(cnd, CD):
+                if cnd[0] == "not" or (cnd[0] == "is" and cnd[2] == sym.NONE) or cnd[0] == "else":
+                    neg = True
+        if not neg:
+            ok_order = False
+    # the database default, where there is one, is the value: some point yields it
+    db_pts = [1 for cs, v, lp in pts if v is not None and apps(v, FD, []) and not apps(v, FB, [])]
+    if ok_order and n_fb >= 1 and db_pts:
         c.ok(R, "order:db-then-fallback")
     else:
-        c.violation(R, "order|chain", f"default lookup chain is {chain}; expected database default `.or_else` fallback", fn.sp, instance="order:db-then-fallback")
-    # the class used for the lookup is this type's descriptor
+        c.violation(R, "order|chain", f"the default stored for a column is not `the database default, and the type's fallback only where the database has none` (points yielding the database default: {len(db_pts)}, points yielding the fallback: {n_fb}, fallback only after a missing database default: {ok_order})", fn.sp, instance="order:db-then-fallback")
     if cls_ok:
         c.ok(R, "class:own-descriptor")
     else:
         c.violation(R, "class|descriptor", "the default is not looked up through type_info.class_descriptor", fn.sp, instance="class:own-descriptor")
+
+
+def _leaves(t):
+    if isinstance(t, tuple) and t:
+        if t[0] == "in":
+            yield t
+        else:
+            for x in t:
+                yield from _leaves(x)
 
 
 def rule_col(c, prog):
